@@ -1,8 +1,18 @@
-(* C02 - merge heights equal the documented criterion (PARTIAL: exact-rational
-   one-merge identities for all seven formulas; the invariant over whole runs
-   and the float-vs-exact tolerance are not theorems). *)
-Require Import KV.Model.Prelude KV.Model.Methods KV.Proofs.Criteria.
-From Coq Require Import QArith Qminmax.
+(* C02 - merge heights equal the documented criterion.
+   Part A: exact-rational one-merge identities for all seven formulas.
+   Part B: the working-matrix update of one merge (update3) applies the formula
+           to exactly the cells of the surviving cluster and nothing else.
+   Part C: whole runs of primitive_with: every recorded height IS the criterion
+           of the two clusters merged - for single/complete over any carrier
+           with a strict weak order, for the five arithmetic methods in exact
+           rational arithmetic.
+   Not theorems: the float-vs-exact rounding tolerance (sampled by the
+   `criterion` oracle), and the same statement for the three fast algorithms
+   (tied to primitive by C06's correspondence and oracles). *)
+Require Import KV.Model.Prelude KV.Model.Condensed KV.Model.Dendrogram KV.Model.Active KV.Model.Methods KV.Model.State
+  KV.Model.Primitive KV.Proofs.Criteria KV.Proofs.ActiveRefine KV.Proofs.PrimitiveGreedy KV.Proofs.UpdateSpec
+  KV.Proofs.SortProofs KV.Proofs.LWInvariant KV.Proofs.CriteriaRun.
+From Coq Require Import QArith Qminmax Permutation.
 Local Open Scope Q_scope.
 
 (* The formulas are the ones of src/method.rs: tools/translators.py
@@ -54,3 +64,151 @@ Theorem C02_ward : forall (Buu Bvv Bww Buv Buw Bvw : Q) (na nb nx : nat),
   == Wq (na + nb) nx (Dq (Bmw Buw Bvw s t) (Bmm Buu Bvv Buv s t) Bww).
 Proof. exact ward_is_variance_increase. Qed.
 Print Assumptions C02_ward.
+
+(* ---- Part B: one merge updates exactly the row of the surviving cluster ---- *)
+Local Close Scope Q_scope.
+Theorem C02_update3 : forall (T : Type) (K : kops T) (p : profile) (meth : method)
+  (s : lstate T) (M M' : cmat T) (L : list nat) (a b : nat) (dist : T) (sa sb : nat),
+  AInv (st_active s) L -> wf_mat M -> length (a_next (st_active s)) = m_obs M ->
+  In a L -> In b L -> a < b ->
+  update3 K p meth s M a b dist sa sb = Ok M' ->
+  wf_mat M' /\ m_obs M' = m_obs M
+  /\ (forall x, In x L -> x <> a -> x <> b ->
+        exists va vb sx, wcell M x a = Some va /\ wcell M x b = Some vb
+          /\ (if uses_size_x meth then vget (st_sizes s) x else Ok 0) = Ok sx
+          /\ wcell M' x b = Some (k_upd K va vb dist sa sb sx))
+  /\ (forall r c, r < c -> c < m_obs M ->
+        (forall x, In x L -> x <> a -> x <> b -> (r, c) <> (Nat.min x b, Nat.max x b)) ->
+        mcell M' r c = mcell M r c).
+Proof. exact update3_spec. Qed.
+Print Assumptions C02_update3.
+
+(* ---- Part C: whole runs ---- *)
+(* generic: any symmetric relation satisfying the one-merge law of the update
+   formula holds between the two merged clusters at every recorded height *)
+Theorem C02_primitive_criterion : forall (T : Type) (K : kops T) (p : profile) (meth : method),
+  (forall a b c, k_ltb K a b = true -> k_ltb K b c = true -> k_ltb K a c = true) ->
+  (forall a, k_ltb K a a = false) ->
+  forall crit : mtree -> mtree -> T -> Prop,
+  (forall A B v, crit A B v -> crit B A v) ->
+  (forall X A B va vb md, crit X A va -> crit X B vb -> crit A B md ->
+     crit X (Node A B) (k_upd K va vb md (tsize A) (tsize B) (if uses_size_x meth then tsize X else 0))) ->
+  forall s d m n s' d' m' M0,
+  primitive_with K p meth s d m n = Ok (s', d', m') ->
+  prologue p (square_all K m) n = Ok M0 ->
+  (forall x y v, x <> y -> x < m_obs M0 -> y < m_obs M0 -> wcell M0 x y = Some v -> crit (Leaf x) (Leaf y) v) ->
+  exists raw tr L' mem',
+    mtrace (seq 0 (m_obs M0)) Leaf tr L' mem'
+    /\ Forall2 (fun st (ab : mtree * mtree) => crit (fst ab) (snd ab) (s_dis st)) raw tr
+    /\ length raw = m_obs M0 - 1
+    /\ Permutation (heights d') (map (k_rt K) (map (@s_dis T) raw))
+    /\ (requires_sorting meth = false -> heights d' = map (k_rt K) (map (@s_dis T) raw)).
+Proof. exact primitive_criterion. Qed.
+Print Assumptions C02_primitive_criterion.
+
+Theorem C02_single_run : forall (T : Type) (F : fops T) (p : profile),
+  (forall a, f_ltb F a a = false) ->
+  (forall a b c, f_ltb F a b = true -> f_ltb F b c = true -> f_ltb F a c = true) ->
+  (forall a b c, f_ltb F a b = false -> f_ltb F b c = false -> f_ltb F a c = false) ->
+  forall s d m n s' d' m' M0,
+  primitive_with (kops_of F Single) p Single s d m n = Ok (s', d', m') ->
+  prologue p m n = Ok M0 ->
+  exists raw tr L' mem',
+    mtrace (seq 0 (m_obs M0)) Leaf tr L' mem'
+    /\ Forall2 (fun st (ab : mtree * mtree) =>
+                  is_min_over (f_ltb F) (cell_or (f_inf F) M0) (fst ab) (snd ab) (s_dis st)) raw tr
+    /\ length raw = m_obs M0 - 1
+    /\ Permutation (heights d') (map (@s_dis T) raw).
+Proof. exact single_run. Qed.
+Print Assumptions C02_single_run.
+
+Theorem C02_complete_run : forall (T : Type) (F : fops T) (p : profile),
+  (forall a, f_ltb F a a = false) ->
+  (forall a b c, f_ltb F a b = true -> f_ltb F b c = true -> f_ltb F a c = true) ->
+  (forall a b c, f_ltb F a b = false -> f_ltb F b c = false -> f_ltb F a c = false) ->
+  forall s d m n s' d' m' M0,
+  primitive_with (kops_of F Complete) p Complete s d m n = Ok (s', d', m') ->
+  prologue p m n = Ok M0 ->
+  exists raw tr L' mem',
+    mtrace (seq 0 (m_obs M0)) Leaf tr L' mem'
+    /\ Forall2 (fun st (ab : mtree * mtree) =>
+                  is_max_over (f_ltb F) (cell_or (f_inf F) M0) (fst ab) (snd ab) (s_dis st)) raw tr
+    /\ length raw = m_obs M0 - 1
+    /\ Permutation (heights d') (map (@s_dis T) raw).
+Proof. exact complete_run. Qed.
+Print Assumptions C02_complete_run.
+
+Local Open Scope Q_scope.
+Theorem C02_average_run : forall (p : profile) (rt : Q -> Q) s d m n s' d' m' M0,
+  primitive_with (kops_of (QFr rt) Average) p Average s d m n = Ok (s', d', m') ->
+  prologue p m n = Ok M0 ->
+  exists raw tr L' mem',
+    mtrace (seq 0 (m_obs M0)) Leaf tr L' mem'
+    /\ Forall2 (fun st (ab : mtree * mtree) =>
+         s_dis st == cross_sum (dd M0) (fst ab) (snd ab) / (qn (tsize (fst ab)) * qn (tsize (snd ab)))) raw tr
+    /\ length raw = (m_obs M0 - 1)%nat
+    /\ Permutation (heights d') (map (@s_dis Q) raw).
+Proof. exact average_run. Qed.
+Print Assumptions C02_average_run.
+
+Theorem C02_weighted_run : forall (p : profile) (rt : Q -> Q) s d m n s' d' m' M0,
+  primitive_with (kops_of (QFr rt) Weighted) p Weighted s d m n = Ok (s', d', m') ->
+  prologue p m n = Ok M0 ->
+  exists raw tr L' mem',
+    mtrace (seq 0 (m_obs M0)) Leaf tr L' mem'
+    /\ Forall2 (fun st (ab : mtree * mtree) => s_dis st == bil (dd M0) (hw (fst ab)) (hw (snd ab))) raw tr
+    /\ length raw = (m_obs M0 - 1)%nat
+    /\ Permutation (heights d') (map (@s_dis Q) raw).
+Proof. exact weighted_run. Qed.
+Print Assumptions C02_weighted_run.
+
+Theorem C02_centroid_run : forall (p : profile) (rt : Q -> Q) s d m n s' d' m' M0,
+  primitive_with (kops_of (QFr rt) Centroid) p Centroid s d m n = Ok (s', d', m') ->
+  prologue p (squares m) n = Ok M0 ->
+  exists raw tr L' mem',
+    mtrace (seq 0 (m_obs M0)) Leaf tr L' mem'
+    /\ Forall2 (fun st (ab : mtree * mtree) => s_dis st == Dw (dd M0) uw (fst ab) (snd ab)) raw tr
+    /\ length raw = (m_obs M0 - 1)%nat
+    /\ heights d' = map rt (map (@s_dis Q) raw).
+Proof. exact centroid_run. Qed.
+Print Assumptions C02_centroid_run.
+
+Theorem C02_median_run : forall (p : profile) (rt : Q -> Q) s d m n s' d' m' M0,
+  primitive_with (kops_of (QFr rt) Median) p Median s d m n = Ok (s', d', m') ->
+  prologue p (squares m) n = Ok M0 ->
+  exists raw tr L' mem',
+    mtrace (seq 0 (m_obs M0)) Leaf tr L' mem'
+    /\ Forall2 (fun st (ab : mtree * mtree) => s_dis st == Dw (dd M0) hw (fst ab) (snd ab)) raw tr
+    /\ length raw = (m_obs M0 - 1)%nat
+    /\ heights d' = map rt (map (@s_dis Q) raw).
+Proof. exact median_run. Qed.
+Print Assumptions C02_median_run.
+
+Theorem C02_ward_run : forall (p : profile) (rt : Q -> Q) s d m n s' d' m' M0,
+  primitive_with (kops_of (QFr rt) Ward) p Ward s d m n = Ok (s', d', m') ->
+  prologue p (squares m) n = Ok M0 ->
+  exists raw tr L' mem',
+    mtrace (seq 0 (m_obs M0)) Leaf tr L' mem'
+    /\ Forall2 (fun st (ab : mtree * mtree) =>
+         s_dis st == Wq (tsize (fst ab)) (tsize (snd ab)) (Dw (dd M0) uw (fst ab) (snd ab))) raw tr
+    /\ length raw = (m_obs M0 - 1)%nat
+    /\ Permutation (heights d') (map rt (map (@s_dis Q) raw)).
+Proof. exact ward_run. Qed.
+Print Assumptions C02_ward_run.
+
+(* the uniform-weight form of `average` is the mean over the cross pairs *)
+Theorem C02_average_is_cross_mean : forall (d0 : nat -> nat -> Q) (A B : mtree),
+  bil d0 (uw A) (uw B) == cross_sum d0 A B / (qn (tsize A) * qn (tsize B)).
+Proof. exact average_is_cross_mean. Qed.
+Print Assumptions C02_average_is_cross_mean.
+
+(* non-vacuity: the hypotheses are met by concrete runs of the model over Q
+   (6 observations, all seven methods return Ok in both profiles) *)
+Definition ex_m : list Q := [5; 9; 2; 7; 11; 4; 8; 3; 10; 6; 12; 1; 13; 15; 14].
+Definition is_ok {A} (r : res A) : bool := match r with Ok _ => true | _ => false end.
+Example C02_runs_exist :
+  forallb (fun meth => forallb (fun p =>
+      is_ok (primitive_with (kops_of (QFr (fun x => x)) meth) p meth (st_new Q) (d_new Q 0) ex_m 6)
+      && is_ok (prologue p (square_all (kops_of (QFr (fun x => x)) meth) ex_m) 6)) [Debug; Release])
+    [Single; Complete; Average; Weighted; Ward; Centroid; Median] = true.
+Proof. vm_compute. reflexivity. Qed.
